@@ -126,6 +126,36 @@ pub fn check_cell(depth: u8, h: u64, part: &mut Part) -> Option<Viol> {
     Ok(v) => v,
     Err(m) => viol!("Layer::vertices_map", "panic-in-domain", case, "4 vertices".into(), m),
   };
+  // vertices_map on EVERY subset of the four directions: exactly the requested vertices, each
+  // identical to the one `vertices` returns
+  for mask in 0..16u8 {
+    let got = guarded(move || {
+      let mut set = CardinalSet::new();
+      for k in 0..4u8 {
+        if mask >> k & 1 == 1 {
+          set.set(Cardinal::from_index(k), true);
+        }
+      }
+      let m = layer.vertices_map(h, set);
+      [m.get(Cardinal::S).copied(), m.get(Cardinal::E).copied(), m.get(Cardinal::N).copied(), m.get(Cardinal::W).copied()]
+    });
+    let got = match got {
+      Ok(g) => g,
+      Err(m) => viol!("Layer::vertices_map", "panic-in-domain", case, format!("the vertices of the direction set {:04b}", mask), m),
+    };
+    part.validated += 1;
+    for k in 0..4usize {
+      let want = if mask >> k & 1 == 1 { Some(vs[k]) } else { None };
+      let ok = match (got[k], want) {
+        (None, None) => true,
+        (Some(a), Some(b)) => a.0.to_bits() == b.0.to_bits() && a.1.to_bits() == b.1.to_bits() || ((a.0 - b.0).abs() <= 4.0 * f64::EPSILON * b.0.abs() && (a.1 - b.1).abs() <= 4.0 * f64::EPSILON * b.1.abs()),
+        _ => false,
+      };
+      if !ok {
+        viol!("Layer::vertices_map", "vertex-accessors-differ", case, format!("direction set {:04b} (bit k = S,E,N,W): {} -> {:?}", mask, CARD[k], want), format!("{:?}", got[k]));
+      }
+    }
+  }
   let lat_v = vertices_lattice(depth, h);
   let n = nside(depth) as f64;
   for k in 0..4usize {
@@ -147,6 +177,37 @@ pub fn check_cell(depth: u8, h: u64, part: &mut Part) -> Option<Viol> {
     };
     if side.len() != 3 || !same(side[0], v1) {
       viol!("Layer::path_along_cell_side", "vertex-accessors-differ", case, format!("3 points starting at the {} vertex {:?}", CARD[k], v1), format!("{:?}", side));
+    }
+    // every (from, to, include_to_vertex) combination of the side paths starting at this vertex
+    for to in 0..4usize {
+      if to == k {
+        continue;
+      }
+      for incl in [false, true] {
+        for nseg in [1u32, 3] {
+          let r = guarded(move || layer.path_along_cell_side(h, &Cardinal::from_index(k as u8), &Cardinal::from_index(to as u8), incl, nseg));
+          let path = match r {
+            Ok(p) => p,
+            Err(_) if (to + 2) % 4 == k => continue, // opposite vertices are not the ends of a side: a refusal is accepted
+            Err(m) => viol!("Layer::path_along_cell_side", "panic-in-domain", case, format!("a path {} -> {}", CARD[k], CARD[to]), m),
+          };
+          part.validated += 1;
+          let want_len = nseg as usize + incl as usize;
+          if (to + 2) % 4 == k {
+            continue; // a diagonal: nothing is specified
+          }
+          if path.len() != want_len || !same(path[0], v1) || (incl && !same(path[path.len() - 1], vs[to])) {
+            viol!("Layer::path_along_cell_side", "vertex-accessors-differ", case, format!("{} points from the {} vertex {:?} to the {} vertex {:?} (included: {})", want_len, CARD[k], v1, CARD[to], vs[to], incl), format!("{:?}", path));
+          }
+          for (idx, p) in path.iter().enumerate() {
+            let (rx, ry) = ref_proj(p.0, p.1);
+            let o = outside(depth, h, rx, ry);
+            if !(o.abs() <= TOL_PLANE) {
+              viol!("Layer::path_along_cell_side", "not-on-border", case, format!("point {} of the side path {} -> {} (n={}) on the border of the cell", idx, CARD[k], CARD[to], nseg), format!("({:e}, {:e}) is {:e} from the border", p.0, p.1, o));
+            }
+          }
+        }
+      }
     }
     let d = plane_dist(v1.0, v1.1, lat_v[k].0 as f64 / n, lat_v[k].1 as f64 / n);
     if !(d <= TOL_PLANE) {
